@@ -566,6 +566,10 @@ func Solve(script string, timeout time.Duration, only ...string) SolveResult {
 			}
 		}
 	}
+	atomic.AddInt64(&cacheMisses, 1)
+	if os.Getenv("GOVC_TRACE_MISS") != "" {
+		fmt.Fprintf(os.Stderr, "MISS %s %d bytes timeout=%v\n", key, len(script), timeout)
+	}
 	// identical scripts in flight are solved once
 	flightMu.Lock()
 	if ch, ok := flight[key]; ok {
@@ -685,6 +689,9 @@ func Solve(script string, timeout time.Duration, only ...string) SolveResult {
 		}
 	}
 	final = best
+	if os.Getenv("GOVC_TRACE_MISS") != "" {
+		fmt.Fprintf(os.Stderr, "DONE %s %s %s %.2fs\n", key, best.Verdict, best.Solver, best.Secs)
+	}
 	return best
 }
 
